@@ -532,6 +532,21 @@ fn gen_family(rng: &mut Rng, c: &mut Case, fam: &str, be: bool) {
             };
             let mut bytes = crate::wl::expr::encode(&prog, &p);
             note.push_str("asm");
+            if rng.chance(1, 6) {
+                // typed arithmetic on boundary literals of one base type
+                use crate::wl::expr::Ins;
+                let ty = 1 + rng.below(10);
+                let mut g = Vec::new();
+                for _ in 0..2 {
+                    let mut ins = Ins::u(0xa4, ty);
+                    ins.bytes = crate::engines::e3::grid_literal(ty as usize, rng.below(6), be);
+                    g.push(ins);
+                }
+                g.push(Ins::op(*rng.pick(crate::engines::e3::GRID_OPS)));
+                g.push(Ins::op(0x9f));
+                bytes = crate::wl::expr::encode(&g, &p);
+                note.push_str("+typedgrid");
+            }
             if rng.chance(1, 12) {
                 bytes = gen_::noise(rng, 48);
                 note.push_str("+noise");
